@@ -98,3 +98,66 @@ pub fn check_meta<S: rustic_core::Open>(repo: &Repository<S>) -> RusticResult<Ve
     let res = repo.check(CheckOptions::default())?;
     Ok(res.0.iter().filter(|(l, _)| format!("{l:?}") == "Error").map(|(_, e)| format!("{e}")).collect())
 }
+
+/// compact error text: RusticError's Display carries a backtrace; keep the message part only
+pub fn errstr(e: &rustic_core::RusticError) -> String {
+    let s = format!("{e}");
+    let mut out = String::new();
+    let mut in_msg = false;
+    for l in s.lines() {
+        if l.starts_with("Backtrace") || l.starts_with("Some additional details") {
+            break;
+        }
+        if l.starts_with("Message:") {
+            in_msg = true;
+            continue;
+        }
+        let l = l.trim();
+        if l.is_empty() {
+            continue;
+        }
+        if !out.is_empty() {
+            out.push(' ');
+        }
+        out.push_str(l);
+        let _ = in_msg;
+    }
+    // append the root cause chain briefly
+    if let Some(src) = std::error::Error::source(e) {
+        out.push_str(" | cause: ");
+        out.push_str(&format!("{src}").lines().filter(|l| !l.trim().is_empty()).take(6).collect::<Vec<_>>().join(" "));
+    }
+    out.chars().take(600).collect()
+}
+
+/// a repository under test: universe + key (+ the generated config it was created with)
+pub struct Fixture {
+    pub uni: Universe,
+    pub key: MasterKey,
+}
+
+impl Fixture {
+    pub fn create(cfg: &crate::cfggen::GenCfg, r: &mut crate::rng::Rng) -> Result<Self, String> {
+        let uni = Universe::new(1);
+        let key = MasterKey::new();
+        let _ = cfg.create(uni.backend(0), &key, r).map_err(|e| format!("init: {}", errstr(&e)))?;
+        Ok(Self { uni, key })
+    }
+    pub fn open(&self) -> Result<RepoOpen, String> {
+        open_uni(&self.uni, &self.key).map_err(|e| format!("open: {}", errstr(&e)))
+    }
+    pub fn ids(&self) -> Result<RepoIds, String> {
+        self.open()?.to_indexed_ids().map_err(|e| format!("to_indexed_ids: {}", errstr(&e)))
+    }
+    pub fn full(&self) -> Result<RepoFull, String> {
+        self.open()?.to_indexed().map_err(|e| format!("to_indexed: {}", errstr(&e)))
+    }
+    /// backup through a fresh handle with a freshly loaded index
+    pub fn backup(&self, model: &ModelTree, opts: &BackupOptions, time_s: i64) -> Result<SnapshotFile, String> {
+        let repo = self.ids()?;
+        backup_model(&repo, model, Frag::Whole, opts, snap_at(time_s, "h")).map_err(|e| format!("backup: {}", errstr(&e)))
+    }
+    pub fn raw_key(&self) -> crate::rawrepo::RawKey {
+        crate::rawrepo::RawKey::from_master(&self.key)
+    }
+}
